@@ -2,9 +2,14 @@ package checks
 
 import (
 	"fmt"
+	"os"
 	"runtime"
+	"sort"
 	"strings"
 	"sync"
+	"sync/atomic"
+	"verif/explore"
+	"verif/world"
 
 	"github.com/openziti/storage/ast"
 	"github.com/openziti/storage/boltz"
@@ -200,6 +205,7 @@ func C02(tier string) int {
 	close(jobs)
 	wg.Wait()
 	boundaryPass(rep, "C02", false, true, false)
+	c02ChildStores(rep, thorough)
 	rep.Set("evaluations", rep.Get("evaluations"))
 	rep.Set("distinct_nontrivial", int(rep.Get("compared_pairs")))
 	return rep.Finish()
@@ -368,4 +374,128 @@ func c02Check(rep *report.Report, w *qWorld, tx *bbolt.Tx, ds *rm.DS, c c02Case,
 	if len(c.sortBy) == 0 {
 		run("IterateIds", func() ([]string, int64, error) { return drain(w.people.IterateIds(tx, q)), 0, nil }, false)
 	}
+}
+
+// c02ChildStores: the same paging/sorting oracle through a parent store, a plain child store and an
+// extended child store over mixed populations (parent-only rows must neither appear in a plain child
+// store's page nor consume its skip/limit), on every state of a short kitchen-sink exploration.
+func c02ChildStores(rep *report.Report, thorough bool) {
+	k := newKitchen("c02 child stores", kFeat{})
+	k.noReads = true
+	depth := 2
+	if thorough {
+		depth = 3
+	}
+	brep := report.New("C02-base", "quick", "exploration")
+	ex := &explore.Explorer{Sc: k, Cfg: explore.Config{Programs: explore.SingleOps(len(k.Ops())), MaxDepth: depth, KeepFiles: true}, Rep: brep}
+	ex.Run()
+	defer os.RemoveAll(ex.Dir)
+	var pages []pageSpec
+	for _, s := range []*int64{nil, i64p(-1), i64p(0), i64p(1), i64p(2), i64p(3)} {
+		for _, l := range []pageSpec{{}, {none: true}, {limit: i64p(-1)}, {limit: i64p(0)}, {limit: i64p(1)}, {limit: i64p(2)}} {
+			pages = append(pages, pageSpec{skip: s, limit: l.limit, none: l.none})
+		}
+	}
+	sorts := []string{"", "sort by id desc", "sort by name", "sort by name desc"}
+	var next int64 = -1
+	var wg sync.WaitGroup
+	for wk := 0; wk < runtime.NumCPU(); wk++ {
+		wg.Add(1)
+		go func() {
+			defer wg.Done()
+			wkk := newKitchen("c02 child stores", kFeat{})
+			for {
+				i := int(atomic.AddInt64(&next, 1))
+				if i >= len(ex.States) || rep.TooMany() {
+					return
+				}
+				st := ex.States[i]
+				m := st.Model.(*kModel)
+				db, err := boltz.Open(st.Path, "root")
+				if err != nil {
+					panic(err)
+				}
+				_ = db.View(func(tx *bbolt.Tx) error {
+					for _, sv := range []struct {
+						store *world.Store
+						name  string
+						has   func(p *kPerson) bool
+					}{{wkk.people, "people", func(*kPerson) bool { return true }}, {wkk.mgr, "mgr(plain child)", func(p *kPerson) bool { return p.mgr }}, {wkk.prof, "prof(extended child)", func(*kPerson) bool { return true }}} {
+						var ids []string
+						for id, p := range m.people {
+							if sv.has(p) {
+								ids = append(ids, id)
+							}
+						}
+						for _, so := range sorts {
+							ordered := append([]string{}, ids...)
+							sort.Slice(ordered, func(a, b int) bool {
+								x, y := ordered[a], ordered[b]
+								switch so {
+								case "sort by id desc":
+									return x > y
+								case "sort by name":
+									if m.people[x].name != m.people[y].name {
+										return m.people[x].name < m.people[y].name
+									}
+								case "sort by name desc":
+									if m.people[x].name != m.people[y].name {
+										return m.people[x].name > m.people[y].name
+									}
+								}
+								return x < y
+							})
+							for _, pg := range pages {
+								parts := []string{"true"}
+								if so != "" {
+									parts = append(parts, so)
+								}
+								if pt := pg.text(); pt != "" {
+									parts = append(parts, pt)
+								}
+								text := strings.Join(parts, " ")
+								skip, limit := pg.ref()
+								want := append([]string{}, ordered...)
+								if skip > 0 {
+									if skip >= int64(len(want)) {
+										want = nil
+									} else {
+										want = want[skip:]
+									}
+								}
+								if limit >= 0 && int64(len(want)) > limit {
+									want = want[:limit]
+								}
+								ws := strings.Join(want, ",")
+								rep.Count("evaluations", 1)
+								rep.Count("compared_pairs", 1)
+								rep.Count("child_store_pages", 1)
+								label := fmt.Sprintf("state{%s} through %s", strings.Join(st.History, " -> "), sv.name)
+								got, count, err := sv.store.QueryIds(tx, text)
+								if err != nil {
+									rep.Violation("C02|child-store|error|"+sv.name+"|"+text, fmt.Sprintf("QueryIds(%q) on %s: %v", text, label, err), map[string]interface{}{"query": text, "history": st.History})
+									continue
+								}
+								if strings.Join(got, ",") != ws || int(count) != len(ordered) {
+									rep.Violation("C02|child-store|wrong-page|QueryIds|"+sv.name+"|"+text, fmt.Sprintf("QueryIds(%q) on %s = %v count=%d, reference [%s] count=%d", text, label, got, count, ws, len(ordered)), map[string]interface{}{"query": text, "history": st.History})
+								}
+								if so == "" {
+									q, perr := ast.Parse(sv.store, text)
+									if perr != nil {
+										continue
+									}
+									if it := strings.Join(drain(sv.store.IterateIds(tx, q)), ","); it != ws {
+										rep.Violation("C02|child-store|wrong-page|IterateIds|"+sv.name+"|"+text, fmt.Sprintf("IterateIds(%q) on %s = [%s], reference [%s]", text, label, it, ws), map[string]interface{}{"query": text, "history": st.History})
+									}
+								}
+							}
+						}
+					}
+					return nil
+				})
+				_ = db.Close()
+			}
+		}()
+	}
+	wg.Wait()
 }
